@@ -389,6 +389,9 @@ struct FOut {
     from_fn_order: Vec<usize>,
     from_samples: Option<Vec<Val>>,
     from_samples_consumed: usize,
+    /// the same through iterators whose size_hint is (0, None) / (k < N, None)
+    from_samples_nohint: Option<Vec<Val>>,
+    from_samples_lowhint: Option<Vec<Val>>,
     channels: Vec<Val>,
     channels_ref: Vec<Val>,
     channels_ref_rev: Vec<Val>,
@@ -449,6 +452,24 @@ where
         out.from_samples = F::from_samples(&mut it).map(|fr| fr.to_vals());
     }
     out.from_samples_consumed = consumed;
+    {
+        struct Hint<I> {
+            it: I,
+            lower: usize,
+        }
+        impl<I: Iterator> Iterator for Hint<I> {
+            type Item = I::Item;
+            fn next(&mut self) -> Option<I::Item> {
+                self.it.next()
+            }
+            fn size_hint(&self) -> (usize, Option<usize>) {
+                (self.lower, None)
+            }
+        }
+        let mk = |lower: usize| Hint { it: (0..c.iter_len).map(|i| <F::Sample as Fmt>::from_val(chans[i % n])), lower };
+        out.from_samples_nohint = F::from_samples(&mut mk(0)).map(|fr| fr.to_vals());
+        out.from_samples_lowhint = F::from_samples(&mut mk(c.iter_len.min(n.saturating_sub(1)))).map(|fr| fr.to_vals());
+    }
     // channels
     let mut it = f.channels();
     loop {
@@ -623,7 +644,14 @@ pub fn check_frame(c: &FCase, st: &mut Stats) -> CheckResult {
             None => return Err(format!("{}: from_samples returned None on an iterator of {} >= {} items", what, c.iter_len, n)),
         }
         ensure!(out.from_samples_consumed == n, "{}: from_samples consumed {} items, expected exactly {}", what, out.from_samples_consumed, n);
+        for (name, v) in [("(0, None)", &out.from_samples_nohint), ("(k < N, None)", &out.from_samples_lowhint)] {
+            match v {
+                Some(v) => ensure!(veq_vec(v, &exp), "{}: from_samples over an iterator with size_hint {} gave {:?}, expected {:?}", what, name, v, exp),
+                None => return Err(format!("{}: from_samples returned None on an iterator that yields {} >= {} items but reports size_hint {}", what, c.iter_len, n, name)),
+            }
+        }
     } else {
+        ensure!(out.from_samples_nohint.is_none() && out.from_samples_lowhint.is_none(), "{}: from_samples returned Some on a short iterator with an open-ended size_hint", what);
         ensure!(out.from_samples.is_none(), "{}: from_samples returned Some on an iterator of only {} items", what, c.iter_len);
     }
     ensure!(veq_vec(&out.channels, &chans), "{}: channels() yielded {:?}, expected {:?}", what, out.channels, chans);
